@@ -385,6 +385,8 @@ def _cfg_pwc(tier):
                             continue
                         if cost and K > 2 and tier == "quick":
                             continue
+                        if cost and (n, nq, K) == (3, 2, 3):
+                            continue    # 3 training x 2 query samples x 3 classes with a symbolic cost matrix exceed the budget
                         out.append(dict(n=n, nq=nq, K=K, cls_order=order, weights=weights, prior=prior, cost=cost, n_neighbors=None))
     # a class order whose sorting permutation is not its own inverse (3-cycle), with a symbolic cost matrix
     out.append(dict(n=2, nq=1, K=3, cls_order="cyclic", weights=False, prior=None, cost="sym", n_neighbors=None))
@@ -400,6 +402,8 @@ def _cfg_sk(tier):
         for order in ("sorted", "unsorted"):
             for cost in (None, "sym"):
                 for fitfn in ("fit", "partial_fit"):
+                    if cost and (n, nq, K) == (3, 2, 3):
+                        continue
                     out.append(dict(n=n, nq=nq, K=K, cls_order=order, cost=cost, fitfn=fitfn))
     return out
 
@@ -421,7 +425,8 @@ HARNESSES = [
 BOUNDS = dict(quick="n_train <= 2, n_query <= 2, K <= 3 classes (declared in sorted and unsorted order), every label/missing pattern, "
                     "symbolic kernel matrix (>= 0), sample weights (>= 0), class prior (scalar), cost matrix (fully symbolic, >= 0), "
                     "symbolic estimator probabilities; fit and partial_fit for the sklearn wrapper",
-              thorough="n_train <= 3, K <= 3 with symbolic cost matrices, vector priors, n_neighbors in {1,2}",
+              thorough="n_train <= 3, K <= 3, vector priors, n_neighbors in {1,2}; symbolic cost matrices up to 3 training x 1 query x 2 classes / "
+                       "2 x 1 x 3 (3 x 2 x 3 only without cost matrix)",
               outside="MixtureModelClassifier, AnnotatorEnsembleClassifier, AnnotatorLogisticRegression (EM / scipy.optimize: no bounded "
                       "encoding), SlidingWindowClassifier (delegates to the wrapped classifier), rbf kernels (only 'precomputed'), "
                       "numerical behaviour of real scikit-learn estimators, floating point rounding")
